@@ -314,7 +314,17 @@ def symcall(f, *a, **k):
                     raise IndexError("pop index out of range")
                 return f(a[0].concretize_in(-n, n - 1))
             if name == "count" and (is_symv(a[0]) or _contains_sym(selfobj)):
-                raise EngineUnsupported("list.count with symbolic content")
+                total = 0
+                for e in selfobj:
+                    r = True if e is a[0] else (e == a[0])
+                    total = z.add(total, z.ite_i(B(r), 1, 0))
+                return mkint(total, (0, len(selfobj)))
+        if isinstance(selfobj, list) and name in ("__getitem__", "__delitem__", "pop") and a and isinstance(a[0], SymInt):
+            n = builtins.len(selfobj)
+            ok = z.And(z.lt(a[0].e, n), z.ge(a[0].e, -n))
+            if n == 0 or not B_decide(ok):
+                raise IndexError("list index out of range")
+            return f(a[0].concretize_in(-n, n - 1))
     return f(*a, **k)
 
 
